@@ -8,13 +8,13 @@ using namespace vf;
 struct Item { const VerInfo* ver; std::string type; uint64_t seed; SynthOpts opts; std::string id; };
 
 inline int seedsPerPair() { return g_cfg.tier ? 6 : 1; }
-inline size_t planSize() { return typeDB().names.size() * (size_t)NVERS * (size_t)seedsPerPair(); }
+inline size_t planSize() { return typeDB().names.size() * nAllVers() * (size_t)seedsPerPair(); }
 inline Item planItem(size_t idx) {
 	const TypeDB& db = typeDB();
-	size_t per = db.names.size() * (size_t)NVERS;
+	size_t per = db.names.size() * nAllVers();
 	size_t it = idx / per, rest = idx % per;
 	Item x;
-	x.ver = &VERS[rest / db.names.size()];
+	x.ver = &verAt(rest / db.names.size());
 	x.type = db.names[rest % db.names.size()];
 	x.seed = mix(mix(g_cfg.seed ^ 0xC08, hashStr(x.type)), (rest / db.names.size()) * 1000 + it);
 	x.opts.gen.maxCount = 1 + (int)((it + rest) % 4);
